@@ -2602,6 +2602,125 @@ run_http(void *arg)
 }
 
 
+
+// =====================================================================================
+// (b3) websocket byte-stream API in message mode, nng on both ends, binary and text messages: a message of
+// every size around the receiver's limit (NNG_OPT_RECVMAXSZ, or NNG_OPT_WS_RECVMAXFRAME for unfragmented
+// messages), sent in one frame or in 40-byte fragments: at or below the limit it arrives byte for byte, above
+// it nothing is delivered and the connection fails
+// =====================================================================================
+static void
+run_wsmsg(void *arg)
+{
+	(void) arg;
+	static const int LEN[] = { 0, 1, 39, 40, 41, 99, 100, 101, 120, 250 };
+	int text  = vs_choose(VK_ENV, 2);
+	int len   = LEN[vs_choose(VK_ENV, 10)];
+	int frag  = vs_choose(VK_ENV, 2);
+	int limfr = frag ? 0 : vs_choose(VK_ENV, 2); // the limit is the frame limit (only unfragmented)
+	g_sfx           = "";
+	vs_tcp_grace_us = 1500;
+	vh_init(0);
+	nng_stream_listener *l;
+	nng_stream_dialer   *d;
+	nng_aio             *la, *da, *sa, *ra;
+	nng_stream          *srv, *cli;
+	char                 url[64];
+	int                  port = 0;
+	VH_OK(nng_stream_listener_alloc(&l, "ws://127.0.0.1:0/m"));
+	VH_OK(nng_stream_listener_set_bool(l, "ws:msgmode", true));
+	VH_OK(nng_stream_listener_set_bool(l, NNG_OPT_WS_RECV_TEXT, text));
+	if (limfr)
+		VH_OK(nng_stream_listener_set_size(l, NNG_OPT_WS_RECVMAXFRAME, 100));
+	else
+		VH_OK(nng_stream_listener_set_size(l, NNG_OPT_RECVMAXSZ, 100));
+	VH_OK(nng_stream_listener_listen(l));
+	VH_OK(nng_stream_listener_get_int(l, NNG_OPT_BOUND_PORT, &port));
+	snprintf(url, sizeof(url), "ws://127.0.0.1:%d/m", port);
+	VH_OK(nng_stream_dialer_alloc(&d, url));
+	VH_OK(nng_stream_dialer_set_bool(d, "ws:msgmode", true));
+	VH_OK(nng_stream_dialer_set_bool(d, NNG_OPT_WS_SEND_TEXT, text));
+	if (frag)
+		VH_OK(nng_stream_dialer_set_size(d, NNG_OPT_WS_SENDMAXFRAME, 40));
+	VH_OK(nng_aio_alloc(&la, NULL, NULL));
+	VH_OK(nng_aio_alloc(&da, NULL, NULL));
+	VH_OK(nng_aio_alloc(&sa, NULL, NULL));
+	VH_OK(nng_aio_alloc(&ra, NULL, NULL));
+	nng_aio_set_timeout(la, 1000);
+	nng_aio_set_timeout(da, 1000);
+	nng_stream_listener_accept(l, la);
+	nng_stream_dialer_dial(d, da);
+	nng_aio_wait(da);
+	nng_aio_wait(la);
+	if (nng_aio_result(da) != 0 || nng_aio_result(la) != 0)
+		vs_fail("harness:wsmsg", "connect: dial %d accept %d", nng_aio_result(da), nng_aio_result(la));
+	cli = nng_aio_get_output(da, 0);
+	srv = nng_aio_get_output(la, 0);
+	vs_case();
+	vs_nontrivial();
+	nng_msg *m;
+	VH_OK(nng_msg_alloc(&m, (size_t) len));
+	for (int i = 0; i < len; i++)
+		((uint8_t *) nng_msg_body(m))[i] = (uint8_t) ('a' + i % 23);
+	nng_aio_set_timeout(sa, 500);
+	nng_aio_set_timeout(ra, 500);
+	nng_stream_recv(srv, ra);
+	nng_aio_set_msg(sa, m);
+	nng_stream_send(cli, sa);
+	nng_aio_wait(sa);
+	if (nng_aio_result(sa) != 0)
+		nng_msg_free(m);
+	nng_aio_wait(ra);
+	int rv = nng_aio_result(ra);
+	const char *kind = text ? "text" : "binary";
+	if (len <= 100) {
+		if (rv != 0)
+			vs_fail("C16:ws:valid-message-lost",
+			    "%s message of %d bytes (%s, limit 100 on the %s): receive failed: %s", kind, len,
+			    frag ? "40-byte fragments" : "one frame", limfr ? "frame" : "message", nng_strerror(rv));
+		nng_msg *r = nng_aio_get_msg(ra);
+		if ((int) nng_msg_len(r) != len)
+			vs_fail("C16:ws:message-altered", "%s message of %d bytes arrived with %zu", kind, len,
+			    nng_msg_len(r));
+		for (int i = 0; i < len; i++)
+			if (((uint8_t *) nng_msg_body(r))[i] != (uint8_t) ('a' + i % 23))
+				vs_fail("C16:ws:message-altered", "%s message of %d bytes differs at byte %d", kind,
+				    len, i);
+		nng_msg_free(r);
+	} else {
+		if (rv == 0) {
+			size_t n = nng_msg_len(nng_aio_get_msg(ra));
+			nng_msg_free(nng_aio_get_msg(ra));
+			vs_fail("C16:ws:over-limit-delivered",
+			    "%s message of %d bytes (%s) was delivered (%zu bytes) although the receiver's %s limit "
+			    "is 100",
+			    kind, len, frag ? "40-byte fragments" : "one frame", n, limfr ? "frame" : "message");
+		}
+		// the connection is failed: a further receive does not deliver anything either
+		nng_aio_set_timeout(ra, 200);
+		nng_stream_recv(srv, ra);
+		nng_aio_wait(ra);
+		if (nng_aio_result(ra) == 0) {
+			nng_msg_free(nng_aio_get_msg(ra));
+			vs_fail("C16:ws:over-limit-delivered", "data delivered after an over-limit %s message", kind);
+		}
+	}
+	vs_outcome("%s len%d frag%d limfr%d rv%d", kind, len, frag, limfr, rv);
+	nng_stream_close(cli);
+	nng_stream_close(srv);
+	nng_stream_free(cli);
+	nng_stream_free(srv);
+	nng_aio_free(la);
+	nng_aio_free(da);
+	nng_aio_free(sa);
+	nng_aio_free(ra);
+	nng_stream_dialer_close(d);
+	nng_stream_listener_close(l);
+	nng_stream_dialer_free(d);
+	nng_stream_listener_free(l);
+	vh_fini();
+}
+
 // =====================================================================================
 // (c3) several requests on one persistent connection: every sequence of 2 (quick) / 3 (thorough)
 // requests over an alphabet that includes requests the server answers itself (unknown path, body
@@ -3784,6 +3903,7 @@ main(int argc, char **argv)
 	explore("http-request-line", run_http, (void *) 1, 15);
 	explore("http-pipelined", run_http, (void *) 2, 15);
 	explore("http-large-head", run_httpbig, NULL, 15);
+	explore("ws-stream-msgmode-limits", run_wsmsg, NULL, 15);
 	explore(T ? "http-persistent-d3" : "http-persistent-d2", run_httpseq, (void *) (intptr_t) (T ? 3 : 2), 15);
 	// ---- (d) ----
 	build_httpc_cases(T);
